@@ -97,7 +97,21 @@ def run_program(prog, scheduler='default', policy='random', seed=0, ops=None, du
             c20['dropped'] = not c20.get('drop')
             meta['c20'] = {k: v for k, v in c20.items() if k in ('silent', 'slow', 'first', 'missed', 'interval', 'integrity', 'drop')}
             meta['hbThreshold'] = c20.get('missed', 2) * c20.get('interval', 2)
-        w.define(prog.yaml())
+        ns = prog.flags.get('ns', '')
+        if ns and prog.subs:
+            # the root lives in namespace ns, its sub-workflows only in the default namespace (found by fall-back)
+            w.define(prog.yaml('root'), namespace=ns)
+            w.define(prog.yaml('subs'), namespace='')
+            if prog.flags.get('ns_decoy'):
+                # ... and a same-named leaf also exists in ns: it must win for descendants of an ns execution
+                leafs = [k for k in prog.subs if k.endswith('leaf')]
+                if leafs:
+                    import copy as _copy
+                    dec = _copy.deepcopy(prog)
+                    dec.subs = {k: v for k, v in dec.subs.items() if k in leafs}
+                    w.define(dec.yaml('subs'), namespace=ns)
+        else:
+            w.define(prog.yaml(), namespace=ns)
         pol = Policy(policy, rnd)
 
         def record(ev):
@@ -120,7 +134,7 @@ def run_program(prog, scheduler='default', policy='random', seed=0, ops=None, du
             steps.append({'ev': _clean_ev(ev), 'obs': obs})
             return obs, ids
 
-        ev = w.step(('op', 'start', prog.name, dict(prog.input), prog.start_params()))
+        ev = w.step(('op', 'start', prog.name, dict(prog.input), dict(prog.start_params(), __namespace=prog.flags.get('ns', ''))))
         root_id = ev.get('result')
         obs, ids = record(ev)
         n = 0
